@@ -103,3 +103,137 @@ func (c *CFG) CoverSentences() [][]string {
 	}
 	return out
 }
+
+// LongSentence returns a sentence of at least target tokens obtained by pumping a recursive production (leftmost
+// expansion that prefers, while short of the target, the production of the non-terminal that leads back to a
+// recursion), or nil if the language is finite or only error alternatives recurse. Deep nesting / long right
+// recursions push the parser stack far beyond its initial capacity.
+func (c *CFG) LongSentence(target int) []string {
+	const inf = 1 << 30
+	minLen := map[string]int{}
+	for n := range c.NT {
+		minLen[n] = inf
+	}
+	cost := func(p Prod) int {
+		if p.Err {
+			return inf
+		}
+		n := 0
+		for _, s := range p.Body {
+			if c.NT[s] {
+				if minLen[s] >= inf {
+					return inf
+				}
+				n += minLen[s]
+			} else {
+				n++
+			}
+		}
+		return n
+	}
+	minProd := map[string]int{}
+	for ch := true; ch; {
+		ch = false
+		for i, p := range c.Prods {
+			if k := cost(p); k < minLen[p.Head] {
+				minLen[p.Head], minProd[p.Head] = k, i
+				ch = true
+			}
+		}
+	}
+	// reach[A][B]: B occurs in some sentential form derived from A using productive, error-free productions
+	reach := map[string]map[string]bool{}
+	for n := range c.NT {
+		reach[n] = map[string]bool{}
+	}
+	for ch := true; ch; {
+		ch = false
+		for _, p := range c.Prods {
+			if cost(p) >= inf {
+				continue
+			}
+			for _, s := range p.Body {
+				if !c.NT[s] {
+					continue
+				}
+				if !reach[p.Head][s] {
+					reach[p.Head][s] = true
+					ch = true
+				}
+				for x := range reach[s] {
+					if !reach[p.Head][x] {
+						reach[p.Head][x] = true
+						ch = true
+					}
+				}
+			}
+		}
+	}
+	// growing production of A: A -> ... B ... with B reaching A and at least one more symbol (so each round adds tokens)
+	grow := map[string]int{}
+	for i, p := range c.Prods {
+		if cost(p) >= inf || p.Head == "S'" {
+			continue
+		}
+		for _, s := range p.Body {
+			if c.NT[s] && (s == p.Head || reach[s][p.Head]) && cost(p) > minLen[s] {
+				if _, ok := grow[p.Head]; !ok {
+					grow[p.Head] = i
+				}
+			}
+		}
+	}
+	if len(c.Prods) == 0 || minLen["S'"] >= inf {
+		return nil
+	}
+	var out []string
+	stack := []string{"S'"}
+	pumped := false
+	for steps := 0; len(stack) > 0 && steps < 200000; steps++ {
+		sym := stack[len(stack)-1]
+		stack = stack[:len(stack)-1]
+		if !c.NT[sym] {
+			out = append(out, sym)
+			continue
+		}
+		pi := minProd[sym]
+		if len(out)+len(stack) < target {
+			if g, ok := grow[sym]; ok {
+				pi = g
+				pumped = true
+			} else {
+				// head towards a non-terminal that can grow
+				for i, p := range c.Prods {
+					if p.Head != sym || cost(p) >= inf {
+						continue
+					}
+					ok := false
+					for _, s := range p.Body {
+						if c.NT[s] {
+							if _, g := grow[s]; g {
+								ok = true
+							}
+							for x := range reach[s] {
+								if _, g := grow[x]; g {
+									ok = true
+								}
+							}
+						}
+					}
+					if ok {
+						pi = i
+						break
+					}
+				}
+			}
+		}
+		b := c.Prods[pi].Body
+		for i := len(b) - 1; i >= 0; i-- {
+			stack = append(stack, b[i])
+		}
+	}
+	if !pumped || len(stack) > 0 || len(out) < target {
+		return nil
+	}
+	return out
+}
